@@ -64,7 +64,7 @@ claimed["C08"] = (
 claimed["C09"] = (
     "Bounded symbolic verification of the Socket.IO header codec: the real encodeString output is compared byte-for-byte with an independent 15-line rendering of the v5 layout "
     "<type>[<n>-][<nsp>,][<id>]<json> and then parsed back by the real parseHeader, with one field symbolic at a time: all 7 packet types x namespace ''/'/'/'/'+x (x up to 2/4 symbolic comma-free bytes, "
-    "ALL byte values); ack id symbolic below 10^4 (quick) / 10^6 (thorough) through the real strconv.FormatUint/ParseUint executed from SSA; attachment count symbolic 0..999; event names of up to 2/4 symbolic "
+    "ALL byte values); ack id symbolic below 10^4 (quick) / 10^5 (thorough; 10^6 was decided on an idle machine but left one query undecided under load, so it is not registered) through the real strconv.FormatUint/ParseUint executed from SSA; attachment count symbolic 0..999; event names of up to 2/4 symbolic "
     "bytes over printable ASCII (quotes and backslashes included) followed or not by a further argument. JSON is a string-literal model that `sv selftest C09` validates natively against encoding/json "
     "(exhaustively on short strings) on every run. "
     "The binary walk (real deconstruct*/reconstruct*/hasBinary through the executor's reflect model with addressability: Field, Index, CanSet, Set, SetBytes, MakeSlice, SetMapIndex): a menu of 17 argument trees "
